@@ -222,7 +222,115 @@ def gen_scripts(seed, per_worker, workers, max_ops, pick_per_tag, timeout, repai
     return chosen, stats, d
 
 
+# Fixed scenarios: layouts that the random generations reach only now and then (each one is the shape of a defect that was seeded
+# by an independent agent or found with TLC); they are replayed in every run next to the generated behaviours.
+SCENARIOS = [
+    dict(tags=['scn_boundaryx'], big=True, text="""put 0
+put 7
+flush
+getall
+put 1
+put 13
+flush
+getall
+put 2 1150000
+put 6
+put 10
+snap 1
+put 10 1150000
+flush
+getall
+compact 0 -1 -1
+getall
+snap 2
+compact 1 1 2
+getall
+scan
+rel 1
+getall
+compact 1 -1 -1
+getall
+scan
+reopen
+getall
+"""),
+    dict(tags=['scn_l0chain'], big=False, text="""put 0
+put 2
+reopen
+put 1
+put 4
+reopen
+put 3
+put 6
+reopen
+getall
+compact 0 3 6
+getall
+scan
+reopen
+getall
+"""),
+    dict(tags=['scn_l0chain_up'], big=False, text="""put 4
+put 6
+reopen
+put 2
+put 5
+reopen
+put 0
+put 3
+reopen
+getall
+compact 0 0 1
+getall
+scan
+reopen
+getall
+"""),
+    dict(tags=['scn_auto_trivial'], big=False, text="""put 0
+reopen
+put 4
+reopen
+put 8
+reopen
+put 12
+reopen
+getall
+compactall
+getall
+scan
+put 1
+flush
+put 5
+flush
+compactall
+getall
+reopen
+getall
+"""),
+    dict(tags=['scn_deep_reopen2'], big=False, text="""put 0
+put 9
+flush
+compact 0 -1 -1
+compact 1 -1 -1
+compact 2 -1 -1
+compact 3 -1 -1
+compact 4 -1 -1
+compact 5 -1 -1
+getall
+put 9
+flush
+reopen
+getall
+reopen
+getall
+scan
+"""),
+]
+
+
 def script_text(rec):
+    if 'text' in rec:
+        return rec['text']
     lines = []
     for o in rec['ops']:
         op = o['op']
@@ -232,8 +340,12 @@ def script_text(rec):
         elif op == 'reopen': lines += ['reopen', 'getall']
         elif op == 'compact': lines += ['compact %d %d %d' % (o['a'], GEN_KEYMAP(o['b']), GEN_KEYMAP(o['c'])), 'getall']
         elif op == 'repair': lines += ['repair %d' % o['a'], 'getall']
-        elif op == 'snap': lines.append('snap 1')
+        elif op == 'snap': lines.append('snap %d' % (o['a'] or 1))
         elif op == 'rel': lines.append('rel 1')
+    if 'auto0' in rec.get('tags', []):
+        # after the automatic compaction (which may be a trivial move): a full manual compaction retires the moved files; the
+        # directory must then hold exactly the live files (listing compared at the quiescent point)
+        lines += ['compactall', 'getall']
     lines += ['getall', 'scan', 'reopen', 'getall']
     return '\n'.join(lines) + '\n'
 
@@ -288,6 +400,8 @@ def gen_layer(prop, tier, seed, out, mc):
         open(os.path.join(rd, 'tlc.out'), 'w').write(r.out)
         out.violation('LsmGen.tla: %s violated while generating behaviours' % r.violated, rd, dict(kind='mc', violated=r.violated))
         return
+    chosen = chosen + [dict(sc) for sc in SCENARIOS]
+    stats['scenarios'] = len(SCENARIOS)
     lib = c.build_lib(); exe = c.build_driver('seq', lib)
     from . import p_api
     jobs = []
